@@ -544,11 +544,11 @@ Section Del.
     assert (Hi2 : forall fi b, In (fi, b) init -> In fi (m_frags mr)) by (intros fi b Q; exact (proj1 (Hin1 fi b Q))).
     assert (Hi3 : forall fi b, In (fi, b) init -> In (f_id fi) (ids_of upd ++ gone)) by (intros fi b Q; exact (proj2 (Hin1 fi b Q))).
     split; [exact Eo | split; [rewrite patch_dels_ids; exact (upd_NoDup mr rows nd0 upd gone Hwr Hmk) | split; [|split; [|split; [|split; [|split]]]]]].
-    - exact (kept_live mr cur rows nd0 nd upd gone init gone2 files Hwr Hwc Hlive Hmk Hi1 Hi2 Hi3 Hndi Hinv F1 F2).
-    - exact (kept_cell mr cur rows nd0 nd upd gone init gone2 files Hwr Hwc Hlive Hmk Hi1 Hi2 Hi3 Hndi Hinv F1 F2).
+    - apply (kept_live mr cur rows nd0 nd upd gone init gone2 files); assumption.
+    - apply (kept_cell mr cur rows nd0 nd upd gone init gone2 files); assumption.
     - exact (kept_NoDup cur upd gone gone2 files Hwc).
     - exact (kept_ids cur upd gone gone2 files).
-    - exact (kept_wf mr cur rows nd0 nd upd gone init gone2 files Hwr Hwc Hlive Hmk Hi1 Hi2 Hi3 Hndi Hinv F1 F2).
-    - exact (kept_goodop mr cur rows nd0 nd upd gone init gone2 files Hwr Hwc Hlive Hmk Hi1 Hi2 Hi3 Hndi Hinv F1 F2).
+    - apply (kept_wf mr cur rows nd0 nd upd gone init gone2 files); assumption.
+    - apply (kept_goodop mr cur rows nd0 nd upd gone init gone2 files); assumption.
   Qed.
 End Del.
